@@ -162,10 +162,29 @@ func (ms *readWriteSegment) Append(offset int64, data []byte) error {
 	var recordSize uint32
 	recordSize, ms.lastCrc = ms.c.codec.WriteRecord(ms.txnMappedFile, fOffset, ms.lastCrc, data)
 	ms.currentFileOffset += recordSize
+	// Terminate the log after the new record. The space after it can hold the
+	// left-overs of a tail that was discarded by a recovery (uncommitted entries
+	// damaged by a crash): records that are still consistent in themselves would
+	// be taken for valid entries that follow the new one at the next recovery
+	ms.clearNextRecordSize()
 	ms.lastOffset = offset
 	ms.writingIdx = binary.BigEndian.AppendUint32(ms.writingIdx, fOffset)
 	ms.verifEventLocked("append")
 	return nil
+}
+
+// clearNextRecordSize zeroes the payload size field at the current end of the
+// log, which is what marks the end of the segment for the recovery.
+func (ms *readWriteSegment) clearNextRecordSize() {
+	const payloadSizeLen = 4
+	if ms.currentFileOffset+payloadSizeLen > uint32(len(ms.txnMappedFile)) {
+		return
+	}
+	for i := ms.currentFileOffset; i < ms.currentFileOffset+payloadSizeLen; i++ {
+		if ms.txnMappedFile[i] != 0 {
+			ms.txnMappedFile[i] = 0
+		}
+	}
 }
 
 func (ms *readWriteSegment) Flush() error {
